@@ -20,6 +20,10 @@ THEOREMS = [
     ("C13_nil_only_with_nil", "forall v, is_data v = true -> (data_eqb (strip v) VNil = true <-> is_nil v = true)"),
 ]
 
+def evalcorr_lines(progs):
+    from .. import evalcorr
+    return evalcorr.driver_lines(progs, env="p")
+
 def run(tier, seed):
     rep = Report(PID, tier, seed)
     standard_proof_phase(rep, TARGETS, IMPORTS, THEOREMS)
@@ -77,7 +81,33 @@ def run(tier, seed):
         rep.violation("= differs from structural equality modulo metadata", {"expression": dec(lines[idx[b]].split(' ')[2]), "answer": answers[idx[b]][:600], "which": "operands (a,b)" if b % 2 == 0 else "operands (b,c)"})
     if bad_model and not bad_spec and not law_fail:
         rep.broken.append(f"correspondence model/implementation (Equal.equal vs `=`): {len(bad_model)} disagreements, e.g. {dec(lines[idx[bad_model[0]]].split(' ')[2])}")
-    rep.evaluations = len(lines)
+    # "nested to any depth": deep and long data, compared with itself and with separately built copies, at top level and
+    # from inside non-tail calls (prelude environment; expectations dictated by the property)
+    mk = "(lambda (n) (foldl (lambda (acc _) (list acc)) 'z (range n)))"
+    imp = "(lambda (n) (foldl (lambda (acc i) (cons i acc)) 'end (range n)))"
+    deep_cases = []
+    for n in ([900, 1100, 3000] if tier == "quick" else [900, 1030, 1100, 3000, 20000]):
+        deep_cases += [(f"((lambda (a) (= a a)) ({mk} {n}))", "t"), (f"((lambda (a b) (list (= a b) (= b a))) ({mk} {n}) ({mk} {n}))", "(t t)"),
+                       (f"((lambda (a b) (list (= a a) (= a b) (= b a))) ({imp} {n}) ({imp} {n}))", "(t t t)"),
+                       (f"((lambda (a b) (list (= a b) (= b a))) ({mk} {n}) ({mk} {n + 1}))", "(() ())"),
+                       (f"((lambda (a) (= a a)) (range {n}))", "t")]
+    deep_cases += [("(block (defun at-depth (k x) \"\" (if (= k 0) (= x x) (car (list (at-depth (substract k 1) x))))) (list (at-depth 300 '((1 (2 (3 (4)))) 5)) (at-depth 500 '((1 (2 (3 (4)))) 5))))", "(t t)")]
+    da = run_driver_cases(evalcorr_lines([f"(print {p})" for p, _ in deep_cases]), timeout=120.0)
+    for (p, want), a in zip(deep_cases, da):
+        rr = dump.split_run_answer(a)
+        got = None
+        if "results" in rr and rr["results"] and rr["results"][-1][0] == "ok":
+            try:
+                got = dump.text_of(dump.parse_dump(rr["results"][-1][1]))
+            except dump.Truncated:
+                pass
+        crashed = rr.get("special") in ("crash", "panic")
+        if got != want and not crashed:
+            rep.violation(f"= on deep or long data: {p} gives {got if got is not None else a[:100]}, expected {want}", {"expression": p, "env": "p", "expected": want, "observed": a[:300]})
+        elif crashed:
+            rep.notes.append(f"the process died on {p[:80]} (native stack; C06/C07 territory, not a wrong answer of =)")
+    rep.coverage["deep_cases"] = len(deep_cases)
+    rep.evaluations = len(lines) + len(deep_cases)
     rep.nontrivial = len(set(t for t in terms if "VCons" in t))
     rep.samples = [dec(lines[k].split(' ')[2]) for k in (0, 1, 2)]
     rep.coverage["pair_kinds"] = kinds
